@@ -42,7 +42,9 @@ func reverse(s []byte) []byte {
 	cursorOut := len(s)
 	output := make([]byte, len(s))
 	for i := 0; i < len(inputRunes); {
-		wid := utf8.RuneLen(inputRunes[i])
+		// width of the rune as encoded in s: an invalid byte decodes to
+		// utf8.RuneError but occupies one byte, not utf8.RuneLen(RuneError)
+		_, wid := utf8.DecodeRune(s[cursorIn:])
 		i++
 		for i < len(inputRunes) {
 			r := inputRunes[i]
